@@ -86,8 +86,8 @@ Definition e_block : list (node * (bytes * fval)) :=
   [(e_r1, (bs "Id", FStr (bs "lit"))); (e_r2, (bs "Status", FInt 64 42))].
 
 Example e_block_is_independent :
-  St 0 (bufLC e_ctx) (vars e_ctx) e_ctx e_obj /\
-  block_writes (bs "obj") (bs "jso") e_doc (bufLC e_ctx) e_obj e_block /\
+  St 0 (bufLC e_ctx) (vars e_ctx) (store e_ctx) e_ctx e_obj /\
+  block_writes (bs "obj") (bs "jso") e_doc 0 (bufLC e_ctx) (vars e_ctx) (store e_ctx) e_obj e_block /\
   map fst e_block = e_two_tree.
 Proof.
   split; [unfold St; vm_compute; repeat split|].
@@ -99,7 +99,7 @@ Proof.
       split; [vm_compute; reflexivity|].
       intros cc E. rewrite (assign_counters cc e_ctx _ _ E). vm_compute. reflexivity.
     + split; [vm_compute; reflexivity|]. exists (VNode (jget e_doc [bs "n"])), (FInt 64 0).
-      split; [unfold rule_src; split; [reflexivity|]; split; [reflexivity|]; split; [reflexivity|]; right; split; [reflexivity|]; split; [reflexivity|]; split; [reflexivity|]; exists [bs "n"]; split; vm_compute; reflexivity|].
+      split; [unfold rule_src; split; [reflexivity|]; split; [reflexivity|]; split; [reflexivity|]; right; left; split; [reflexivity|]; split; [reflexivity|]; split; [reflexivity|]; exists [bs "n"]; split; vm_compute; reflexivity|].
       split; [vm_compute; reflexivity|].
       intros cc E. rewrite (assign_counters cc e_ctx _ _ E). vm_compute. reflexivity.
   - vm_compute. constructor; [|constructor; [|constructor]]; simpl; intuition discriminate.
@@ -206,4 +206,48 @@ Proof.
   repeat (split; [vm_compute; reflexivity|]). split.
   - eexists. split; vm_compute; reflexivity.
   - vm_compute. reflexivity.
+Qed.
+
+(* C02, program level, the other two kinds of source: a static variable and a
+   field of another object *)
+Definition e_obj3 : obj := Obj [(bs "Id", FStr []); (bs "Status", FInt 64 0); (bs "Name", FBytes [])] [] [].
+Definition e_st3 : obj := Obj [(bs "Id", FStr (bs "sid")); (bs "Status", FInt 64 5); (bs "Name", FBytes (bs "nm"))] [] [].
+Definition e_ctx3 : ctx :=
+  ctx_set (ctx_set (ctx_set (ctx_set (new_ctx [e_obj3; e_st3]) (bs "obj") (VObj 0 []) InsObj) (bs "st") (VObj 1 []) InsObj)
+                   (bs "jso") (VNode e_doc) InsVector) (bs "ivar") (VInt 7) InsStatic.
+Definition e_three : bytes := bs ("obj.Id = ivar" ++ enl ++ "obj.Status = st.Status" ++ enl ++ "obj.Name = ""lit""" ++ enl).
+Definition e_three_tree : list node := fst (parse_pure enames e_three).
+Definition e_block3 : list (node * (bytes * fval)) :=
+  [(nth 0 e_three_tree node0, (bs "Id", FStr (bs "7"))); (nth 1 e_three_tree node0, (bs "Status", FInt 64 5));
+   (nth 2 e_three_tree node0, (bs "Name", FBytes (bs "lit")))].
+
+Example e_block3_is_independent :
+  St 0 (bufLC e_ctx3) (vars e_ctx3) (store e_ctx3) e_ctx3 e_obj3 /\
+  block_writes (bs "obj") (bs "jso") e_doc 0 (bufLC e_ctx3) (vars e_ctx3) (store e_ctx3) e_obj3 e_block3 /\
+  map fst e_block3 = e_three_tree /\
+  store (fst (decode (testU None) 50 (rev e_three_tree) e_ctx3)) = store (fst (decode (testU None) 50 e_three_tree e_ctx3)).
+Proof.
+  split; [unfold St; split; [reflexivity|]; split; [reflexivity|]; split; [reflexivity|]; split; [reflexivity|]; intros; reflexivity|].
+  split; [|split; vm_compute; reflexivity].
+  split.
+  - constructor; [|constructor; [|constructor; [|constructor]]].
+    + split; [vm_compute; reflexivity|]. exists (VInt 7), (FStr []).
+      split; [unfold rule_src; split; [reflexivity|]; split; [reflexivity|]; split; [reflexivity|]; right; right; left;
+              split; [reflexivity|]; split; [reflexivity|]; split; [reflexivity|]; exists (bs "ivar"), [];
+              split; [vm_compute; reflexivity|]; split; [vm_compute; reflexivity|]; intros j; discriminate|].
+      split; [vm_compute; reflexivity|].
+      intros cc E. rewrite (assign_counters cc e_ctx3 _ _ E). vm_compute. reflexivity.
+    + split; [vm_compute; reflexivity|]. exists (VInt 5), (FInt 64 0).
+      split; [unfold rule_src; split; [reflexivity|]; split; [reflexivity|]; split; [reflexivity|]; right; right; right;
+              split; [reflexivity|]; split; [reflexivity|]; split; [reflexivity|];
+              exists (bs "st"), [bs "Status"], 1, [], e_st3, (FInt 64 5);
+              split; [vm_compute; reflexivity|]; split; [vm_compute; reflexivity|]; split; [discriminate|];
+              split; [reflexivity|]; split; vm_compute; reflexivity|].
+      split; [vm_compute; reflexivity|].
+      intros cc E. rewrite (assign_counters cc e_ctx3 _ _ E). vm_compute. reflexivity.
+    + split; [vm_compute; reflexivity|]. exists (VBytes (bs "lit")), (FBytes []).
+      split; [unfold rule_src; split; [reflexivity|]; split; [reflexivity|]; split; [reflexivity|]; left; split; reflexivity|].
+      split; [vm_compute; reflexivity|].
+      intros cc E. rewrite (assign_counters cc e_ctx3 _ _ E). vm_compute. reflexivity.
+  - vm_compute. constructor; [|constructor; [|constructor; [|constructor]]]; simpl; intuition discriminate.
 Qed.
